@@ -30,6 +30,7 @@ import (
 	"bytes"
 	"fmt"
 	"net/http"
+	"reflect"
 	"sort"
 	"strings"
 	"time"
@@ -52,7 +53,15 @@ type c27col struct {
 type c27bucket struct {
 	key  string // "SYM/TF/ATTR"
 	n    int
-	cols []interface{} // one per schema column
+	cols []interface{} // one per schema column: what is handed to the conversion
+	orig []interface{} // deep copies taken when generated: the expectation, and what cols must still hold afterwards
+}
+
+func c27clone(col interface{}) interface{} {
+	v := reflect.ValueOf(col)
+	c := reflect.MakeSlice(v.Type(), v.Len(), v.Len())
+	reflect.Copy(c, v)
+	return c.Interface()
 }
 
 // c27dataset = one multi-dataset: a schema and 1..5 buckets with that schema.
@@ -60,6 +69,7 @@ type c27dataset struct {
 	schema  []c27col
 	buckets []c27bucket
 	total   int
+	shared  bool // bucket columns are windows into one backing array per column
 }
 
 func (d *c27dataset) series(b int) *io.ColumnSeries {
@@ -156,6 +166,29 @@ func c27genDataset(r *gen.R, usedKeys map[string]bool, zeroPattern int) *c27data
 		}
 		d.buckets = append(d.buckets, bk)
 		d.total += n
+	}
+	// every third dataset: the buckets' columns are windows into one table per column (one contiguous
+	// result split per symbol, as a caller holding one big table would pass them): a bucket's column then
+	// has spare capacity that belongs to its neighbours, and the buckets sit in memory in another order
+	// than they are appended in
+	if nb >= 2 && r.P(1, 3) {
+		d.shared = true
+		memOrder := r.Perm(nb)
+		for ci, c := range d.schema {
+			big := reflect.ValueOf(genCol(r, c.ti, d.total))
+			off := 0
+			for _, b := range memOrder {
+				n := d.buckets[b].n
+				reflect.Copy(big.Slice(off, off+n), reflect.ValueOf(d.buckets[b].cols[ci]))
+				d.buckets[b].cols[ci] = big.Slice(off, off+n).Interface()
+				off += n
+			}
+		}
+	}
+	for b := range d.buckets {
+		for _, col := range d.buckets[b].cols {
+			d.buckets[b].orig = append(d.buckets[b].orig, c27clone(col))
+		}
 	}
 	return d
 }
@@ -302,7 +335,7 @@ func c27ideal(ds ...*c27dataset) map[string]c27want {
 	m := map[string]c27want{}
 	for _, d := range ds {
 		for _, b := range d.buckets {
-			m[b.key] = c27want{schema: d.schema, cols: b.cols}
+			m[b.key] = c27want{schema: d.schema, cols: b.orig}
 		}
 	}
 	return m
@@ -407,7 +440,7 @@ func c27oneMap(a *c27acc, r *gen.R, mapNo int) {
 				trig = true
 				continue
 			}
-			m[b.key] = c27want{schema: d.schema, cols: b.cols}
+			m[b.key] = c27want{schema: d.schema, cols: b.orig}
 		}
 		return m, trig
 	}
@@ -528,11 +561,25 @@ func c27oneMap(a *c27acc, r *gen.R, mapNo int) {
 					trig = true
 					asis[b.key] = c27want{bare: true}
 				} else {
-					asis[b.key] = c27want{schema: d.schema, cols: b.cols}
+					asis[b.key] = c27want{schema: d.schema, cols: b.orig}
 				}
 			}
 		}
 		a.verdict("Q", ds, c27ideal(ds...), asis, trig, got, fail)
+	}
+	// the conversions are read-only for the caller: the columns handed in still hold what they held
+	for _, d := range ds {
+		if d.shared {
+			res.Count("datasets_with_shared_backing_arrays", 1)
+		}
+		for _, b := range d.buckets {
+			for ci, c := range d.schema {
+				res.Count("caller_columns_rechecked", 1)
+				if df := diffCol(c.name, b.orig[ci], b.cols[ci]); df != "" {
+					a.res.Violation(fmt.Sprintf("the conversion to the wire format modified the caller's data: bucket %s: %s", b.key, df), map[string]interface{}{"dataset": d.describe(), "shared_backing_array": d.shared})
+				}
+			}
+		}
 	}
 	if mapNo == 0 && res.Sample == nil {
 		var w []interface{}
